@@ -23,6 +23,7 @@
 package main
 
 import (
+	"unsafe"
 	"bytes"
 	"encoding/json"
 	"fmt"
@@ -430,7 +431,7 @@ func main() {
 	}
 
 	run.Set("rule", "Every case is a history of Write/SumHash/Reset/ComputeHash calls executed on ONE real hasher object next to a reference stream model (bytes written since the last Reset; digests from refkeccak/refsha2, byte equality). "+
-		"(a) per algorithm every message length 0..4*rate+1, 10000, 65537 x {fresh ComputeHash, fresh Write+SumHash, Reset+Write+SumHash, used-then-Reset+Write+SumHash, dirty ComputeHash, one-shot helper}; "+
+		"(a') the same message at every address alignment 0..15 (ComputeHash, Write+SumHash, reuse, split writes starting at other alignments, one-shot helper) for 7 lengths around the block boundaries; (a) per algorithm every message length 0..4*rate+1, 10000, 65537 x {fresh ComputeHash, fresh Write+SumHash, Reset+Write+SumHash, used-then-Reset+Write+SumHash, dirty ComputeHash, one-shot helper}; "+
 		"(b) every 2-split (every cut 0..L) of every L<=splitMul*rate+2 on a never-reset object and on a used+Reset object, 3-splits with cuts from {0,1,2,rate-2..rate+2,2rate-1..2rate+1} and tails {0,1,rate-1,rate,rate+1}; "+
 		"(c) the complete history tree to the given depth over {W0,W1,W(rate-1),W(rate),W(rate+1),SumHash,Reset,C0,C1,C(rate)} from a never-reset object; pruned: sponge Write/SumHash after SumHash/ComputeHash without Reset (docs forbid); SHA2 Write/SumHash after ComputeHash are executed but not compared until Reset (not defined by C13); "+
 		"histories are explored as event sequences (no merging of implementation states); states = distinct reference-model states (algorithm, mode, stream length, never-reset flag, SumHash/ComputeHash-seen flags) visited, transitions = edges of the history tree (each executed on the real object), traces = maximal histories executed end-to-end with every defined output compared; "+
@@ -445,6 +446,7 @@ func main() {
 	run.Set("targets", tnames)
 
 	partA(targets)
+	partAlign(targets)
 	partB(targets, splitMul)
 	partC(targets, depth)
 	partD(kKey, kCust)
@@ -502,6 +504,54 @@ func partA(targets []*target) {
 	}
 	t := targets[0]
 	run.Sample(map[string]any{"part": "a", "algo": t.id, "history": describe([]lenOp{W(3), S, R, W(137), S}), "meaning": "W<n>=Write n bytes, S=SumHash, R=Reset, C<n>=ComputeHash of n bytes"})
+}
+
+// (a') the same bytes at every ADDRESS alignment: a digest is a function of the byte values, not
+// of where the caller's slice happens to start in memory (word-wise absorb paths read the caller's
+// buffer directly when the internal buffer is empty and a full block is available). The message is
+// copied to every offset 0..15 of a 16-byte-aligned backing array and pushed through ComputeHash,
+// Write+SumHash, split writes whose later chunks start at other alignments, and the one-shot helper.
+func partAlign(targets []*target) {
+	for _, t := range targets {
+		lens := []int{t.rate - 1, t.rate, t.rate + 1, 2 * t.rate, 2*t.rate + 3, 3*t.rate - 1, 4*t.rate + 1}
+		type job struct{ L, off int }
+		var jobs []job
+		for _, L := range lens {
+			for off := 0; off < 16; off++ {
+				jobs = append(jobs, job{L, off})
+			}
+		}
+		ev.Par(len(jobs), func(i int) {
+			j := jobs[i]
+			words := make([]uint64, (j.L+16)/8+3)
+			backing := unsafe.Slice((*byte)(unsafe.Pointer(&words[0])), len(words)*8)
+			if uintptr(unsafe.Pointer(&backing[0]))%8 != 0 {
+				run.Fatal("backing array is not 8-byte aligned")
+			}
+			data := backing[j.off : j.off+j.L]
+			copy(data, pat1[:j.L])
+			hists := [][]op{
+				{{'C', data}},
+				{{'W', data}, {'S', nil}},
+				{{'W', data[:1]}, {'S', nil}, {'R', nil}, {'W', data}, {'S', nil}},
+			}
+			for _, c := range []int{1, 3, 8, t.rate} {
+				if c < j.L {
+					hists = append(hists, []op{{'R', nil}, {'W', data[:c]}, {'W', data[c:]}, {'S', nil}})
+				}
+			}
+			if t.rate+5 < j.L {
+				// a first write that fills exactly one block, then a block-sized write from an odd address
+				hists = append(hists, []op{{'W', data[:t.rate]}, {'W', data[t.rate : t.rate+5]}, {'W', data[t.rate+5:]}, {'S', nil}})
+			}
+			for hi, h := range hists {
+				check(t, h)
+				run.Distinct(fmt.Sprintf("align/%s/%d/%d/%d", t.id, j.L, j.off, hi))
+			}
+			oneShot(t, data)
+		})
+	}
+	run.Set("alignment_sweep", "every target x lengths {rate-1, rate, rate+1, 2*rate, 2*rate+3, 3*rate-1, 4*rate+1} x address offsets 0..15 x {ComputeHash, Write+SumHash, reuse, 4 split points, block-then-odd-address}")
 }
 
 func oneShot(t *target, msg []byte) {
